@@ -170,7 +170,7 @@ def cases(tier, seed=0):
   for order in ([("Cu",), ("Cu", "Al"), ("Al", "Cu")] if tier == "quick" else
                 [("Cu",), ("Cu", "Al"), ("Al", "Cu"), ("Zr", "Cu", "Al"), ("Al", "Zr", "Cu"), ("B", "Zr", "Al", "Cu")]):
     cs.append(Case("excel_eam_fs %s" % "/".join(order), excel_case, elements=order, nr=3, nrho=2))
-  for m in ("fs_basic", "fs_three"):
+  for m in ("fs_basic", "fs_three", "fs_multirange"):
     for tgt in ("setfl_fs", "DL_POLY_EAM_fs"):
       cs.append(Case("potable %s %s" % (m, tgt), EP.potable_case, model_name=m, target=tgt, nr=2 if tier == "quick" else 3, nrho=2))
   return cs
